@@ -977,32 +977,55 @@ func (e *kvElection) StopWithContext(ctx context.Context, opts StopOptions) erro
 	return nil
 }
 
+// ownRecordDeleteAttempts bounds the read-then-conditional-delete cycles of
+// deleteOwnRecord. After a stop has begun at most one write of this instance (the
+// heartbeat Update that was in flight) can still land, so the second cycle
+// already sees the final revision; the third is margin.
+const ownRecordDeleteAttempts = 3
+
 // deleteOwnRecord deletes the leadership record if it still belongs to this
 // instance's term with the given token (StopWithContext with DeleteKey).
 func (e *kvElection) deleteOwnRecord(ctx context.Context, termToken string) {
-	ownedRev, owned := e.ownsRecord(termToken)
-	if !owned {
-		// Preempted, expired or replaced since our last heartbeat: the record
-		// (if any) belongs to a successor and must not be deleted.
-		log := e.getLogger()
-		log.Warn("key_deletion_skipped",
-			append(e.logWithContext(ctx),
-				zap.String("key", e.key),
-				zap.String("reason", "record_not_owned"),
-			)...,
-		)
-	} else if err := e.deleteRecordAt(ownedRev); err != nil {
+	var err error
+	for attempt := 0; attempt < ownRecordDeleteAttempts; attempt++ {
+		ownedRev, owned := e.ownsRecord(termToken)
+		if !owned {
+			if attempt > 0 {
+				// The refused deletion was followed by a read that no longer
+				// shows our record: it is gone or belongs to a successor.
+				break
+			}
+			// Preempted, expired or replaced since our last heartbeat: the record
+			// (if any) belongs to a successor and must not be deleted.
+			log := e.getLogger()
+			log.Warn("key_deletion_skipped",
+				append(e.logWithContext(ctx),
+					zap.String("key", e.key),
+					zap.String("reason", "record_not_owned"),
+				)...,
+			)
+			return
+		}
+		if err = e.deleteRecordAt(ownedRev); err == nil {
+			log := e.getLogger()
+			log.Info("key_deleted",
+				append(e.logWithContext(ctx),
+					zap.String("key", e.key),
+				)...,
+			)
+			return
+		}
+		// A conditional delete is refused when the record changed after the
+		// ownership read. A heartbeat Update of this instance that was in flight
+		// when the stop began may have landed in between: the record is then
+		// still ours, at a newer revision, and nothing refreshes it any more.
+		// Read again and delete that revision.
+	}
+	if err != nil {
 		log := e.getLogger()
 		log.Warn("key_deletion_failed",
 			append(e.logWithContext(ctx),
 				zap.Error(err),
-				zap.String("key", e.key),
-			)...,
-		)
-	} else {
-		log := e.getLogger()
-		log.Info("key_deleted",
-			append(e.logWithContext(ctx),
 				zap.String("key", e.key),
 			)...,
 		)
